@@ -1,6 +1,6 @@
 """Frame obligations (C09): with store_states=False a rule's _run_step stores to no field of self, transitively
 through the self.<method> calls it makes (effect scan of the real AST; nothing is executed symbolically here).
-Rules whose _run_step has a full contract elsewhere (STV, Plurality, Borda, GeneralRating, RandomDictator) carry the same frame
+Rules whose _run_step has a full contract elsewhere (STV, Plurality, Borda, GeneralRating, RandomDictator, DominatingSets, CondoBorda) carry the same frame
 obligation there (`pure_unless`) and are NOT listed here: a later registration under the same key would replace the full contract."""
 from pyvc.api import *
 
@@ -18,7 +18,6 @@ def _frame(relpath, qual, props=("C09",)):
 
 
 for _rel, _q in ((R + "top_two.py", "TopTwo._run_step"), (R + "alaska.py", "Alaska._run_step"),
-                 (R + "dominating_sets.py", "DominatingSets._run_step"), (R + "condo_borda.py", "CondoBorda._run_step"),
                  (R + "boosted_random_dictator.py", "BoostedRandomDictator._run_step"),
                  (R + "plurality_veto.py", "PluralityVeto._run_step")):
     _frame(_rel, _q)
